@@ -9,15 +9,23 @@ C18 — io_uring ops complete once with the direct syscall's result; teardown is
   operation — opcode, every operand intact, sqe flags and user_data intact, unused fields zero.
 * Teardown.  `setup_drop_balanced`: for every kernel answer (sizes, SINGLE_MMAP or not) and every
   failing mmap, what setup_io_uring + Drop release is exactly what they acquired, each once.
-* `one_cqe_per_sqe_partial`: the ring half of "one completion per submission"; that the kernel posts
-  exactly one completion with the direct syscall's result is kernel behaviour (observed by the
-  implementation-vs-oracle run of checks/c18.py, not provable here).
+* One completion per submission.  The KERNEL CONTRACT is an explicit step relation composed with the ring model
+  (Model/Ring.lean `kstep`: `consume` in ring order, `complete i` = exactly one completion for the i-th in-flight
+  request, any order, user_data and result of the direct system call — -ECANCELED behind a failed link —, into
+  the completion ring only while it has room, else the overflow list; `flushOvf`; `idle`).  The contract is the
+  ASSUMPTION (kernel behaviour; its observable consequences are what the real-ring oracle run of checks/c18.py
+  checks against direct system calls on a twin).  PROVED about the wrapper under it, for every interleaving, ring
+  size, index shift and initial counter: `cqe_exactly_once` / `one_cqe_per_sqe` (safety: the reaped (user_data,
+  res) multiset is a sub-multiset of the owed one, no request twice, nothing invented), `cqe_complete_at_quiescence`
+  (kernel quiet + ring reaped empty ⇒ equality), `link_chain_order` (+ `link_deps_spec`, `link_within_batch`,
+  `owed_result`), `wake_protocol`.
 The `orig_*` theorems are witnesses on the model of the code before the C18 repairs.
 -/
 import TinyVerif.Gen.SqeCtors
 import TinyVerif.Proofs.SqeLemmas
 import TinyVerif.Model.UringRes
 import TinyVerif.Props.C17
+import TinyVerif.Proofs.RingKernel
 namespace TinyVerif.C18
 open TinyVerif.Sqe TinyVerif.UringRes TinyVerif.Ring
 
@@ -205,21 +213,190 @@ example : (script .fixed 0 ⟨4, 8, 192, 64, false⟩ (some 2)).2 =
     [.S, .M 1 208 0, .M 2 192 134217728, .ME 256 268435456, .U 1 208, .U 2 192, .C, .bar] := by decide
 
 
-/-- **one_cqe_per_sqe_partial** — full statement: every submitted op produces exactly one completion
-carrying its user data and the direct syscall's result.  Proved here: the ring half.  IF the kernel
-posts one completion per consumed submission carrying its user data (`hkernel`; kernel behaviour,
-observed by the implementation-vs-oracle run, together with "same result and side effects"), THEN
-for every ring size, every initial counter value and every interleaving the completions the
-application reaps are, by user data, exactly an initial segment of the submissions it filled — none
-lost, duplicated or invented by the wrapper. -/
-theorem one_cqe_per_sqe_partial {k kc c cc : Nat} (p : Params k kc c cc) (flags : Nat) (ops : List Op)
-    (hkernel : (reached flags k kc c cc ops).posted.map Ent.val =
-               (reached flags k kc c cc ops).consumed.map Ent.val) :
-    (reached flags k kc c cc ops).reaped.map Ent.val <+: (reached flags k kc c cc ops).filled.map Ent.val := by
-  obtain ⟨h1, h2⟩ := sq_in_order_once p flags ops
-  have h3 := cq_in_order_once p flags ops
-  have a := h3.map Ent.val
-  rw [hkernel] at a
-  exact a.trans ((h1.trans h2).map Ent.val)
+
+/-- the state reached from a fresh ring by an arbitrary interleaving of application steps
+(get+fill / flush / reap / wake) and kernel-contract steps (consume / complete / flushOvf / idle) -/
+def kreached (K : Kern) (flags k kc c cc : Nat) (ops : List KOp) : KSt :=
+  (krun K .fixed (kinit flags k kc c cc) ops).1
+
+theorem kreached_inv (K : Kern) {k kc c cc : Nat} (p : Params k kc c cc) (flags : Nat) (ops : List KOp) :
+    KInv K (kreached K flags k kc c cc ops) ∧ RInv k kc c cc (kreached K flags k kc c cc ops).ring :=
+  ⟨krun_kinv ops (kinv_init K flags k kc c cc),
+   krun_rinv ops ⟨_, _, _, inv_init flags k kc c cc p.hk p.hkc p.hc p.hcc⟩⟩
+
+/-- **cqe_exactly_once** (safety).  ASSUMED: the kernel contract, i.e. the kernel moves only by the steps
+`consume` / `complete` / `flushOvf` / `idle` of Model/Ring.lean (in-order consumption, exactly one completion
+per consumed entry with its user_data and the direct call's result or -ECANCELED behind a failed link,
+posted in any order, only while the completion ring has room, overflow list otherwise).  PROVED about the
+wrapper (`get_next_sqe_slot`, `flush_submission_queue`, `get_next_cqe` as they are in /repo): for every ring
+size, index shift, initial counter (wrap) and every interleaving,
+* completion by completion, what the application reaped is the completion the contract owes to request
+  number `reapedSeq[i]` (`expWord`: that entry's user_data and result),
+* no request number occurs twice (exactly once) and each is the number of a consumed entry (nothing invented),
+* hence the multiset of reaped completions is a sub-multiset of the completions owed for the consumed entries,
+* and the consumed entries are, in order, a prefix of the flushed ones, which are a prefix of the filled ones. -/
+theorem cqe_exactly_once (K : Kern) {k kc c cc : Nat} (p : Params k kc c cc) (flags : Nat) (ops : List KOp) :
+    (kreached K flags k kc c cc ops).ring.reaped.map Ent.val =
+      (reapedSeq (kreached K flags k kc c cc ops)).map
+        (expWord K (kreached K flags k kc c cc ops).ring.consumed (kreached K flags k kc c cc ops).deps) ∧
+    (reapedSeq (kreached K flags k kc c cc ops)).Nodup ∧
+    (∀ q ∈ reapedSeq (kreached K flags k kc c cc ops), q < (kreached K flags k kc c cc ops).ring.consumed.length) ∧
+    (∃ rest, ((kreached K flags k kc c cc ops).ring.reaped.map Ent.val ++ rest).Perm
+      (owed K (kreached K flags k kc c cc ops))) ∧
+    (kreached K flags k kc c cc ops).ring.consumed <+: (kreached K flags k kc c cc ops).ring.flushed ∧
+    (kreached K flags k kc c cc ops).ring.flushed <+: (kreached K flags k kc c cc ops).ring.filled := by
+  obtain ⟨h, hr⟩ := kreached_inv K p flags ops
+  obtain ⟨a, b, c', d⟩ := safety_state h hr
+  obtain ⟨inq, unpub, cinq, hi⟩ := hr
+  exact ⟨a, b, c', d, ⟨inq, hi.flushed_eq.symm⟩, ⟨unpub, hi.filled_eq.symm⟩⟩
+
+/-- **cqe_complete_at_quiescence**: under the same contract, when the kernel has nothing pending (`KQuiet`:
+nothing published is unconsumed, nothing in flight, overflow list empty) and the application has reaped
+until `get_next_cqe` returns `None`, every flushed entry has been consumed and the reaped completions are,
+as a multiset, exactly the completions owed — none missing, none extra. -/
+theorem cqe_complete_at_quiescence (K : Kern) {k kc c cc : Nat} (p : Params k kc c cc) (flags : Nat)
+    (ops : List KOp) (hq : KQuiet (kreached K flags k kc c cc ops))
+    (hempty : (step .fixed (kreached K flags k kc c cc ops).ring .reap).2 = .noCqe) :
+    (kreached K flags k kc c cc ops).ring.consumed = (kreached K flags k kc c cc ops).ring.flushed ∧
+    ((kreached K flags k kc c cc ops).ring.reaped.map Ent.val).Perm (owed K (kreached K flags k kc c cc ops)) := by
+  obtain ⟨h, hr⟩ := kreached_inv K p flags ops
+  exact complete_state h hr hq hempty
+
+/-- **link_chain_order**: under the contract, a completion of a request linked behind request `m` is
+reaped only after the completion of `m` (completions of one IOSQE_IO_LINK chain are reaped in chain order),
+although completions in general come in any order. -/
+theorem link_chain_order (K : Kern) {k kc c cc : Nat} (p : Params k kc c cc) (flags : Nat) (ops : List KOp)
+    (i q m : Nat) (hi : (reapedSeq (kreached K flags k kc c cc ops))[i]? = some q)
+    (hd : (kreached K flags k kc c cc ops).deps[q]? = some (some m)) :
+    ∃ j, j < i ∧ (reapedSeq (kreached K flags k kc c cc ops))[j]? = some m :=
+  link_order_state (kreached_inv K p flags ops).1 i q m hi hd
+
+/-- what "linked behind `m`" means: `m` is the entry consumed just before, and it carries IOSQE_IO_LINK -/
+theorem link_deps_spec (K : Kern) {k kc c cc : Nat} (p : Params k kc c cc) (flags : Nat) (ops : List KOp)
+    (q m : Nat) (hd : (kreached K flags k kc c cc ops).deps[q]? = some (some m)) :
+    m + 1 = q ∧ ∃ e, (kreached K flags k kc c cc ops).ring.consumed[m]? = some e ∧ K.link e.val = true :=
+  (kreached_inv K p flags ops).1.dep_ok q m hd
+
+/-- and conversely, within one submission batch an entry is linked behind its predecessor exactly when the
+predecessor carries IOSQE_IO_LINK (the first entry of a batch is linked behind nothing) -/
+theorem link_within_batch (K : Kern) (n : Nat) (es : List Ent) (j : Nat) (r r' : Req)
+    (h0 : (tagReqs K n none es)[j]? = some r) (h1 : (tagReqs K n none es)[j + 1]? = some r') :
+    r'.dep = if K.link r.ent.val then some r.seq else none :=
+  tagReqs_adjacent K es n none j r r' h0 h1
+
+/-- **owed_result**: the completion the contract owes for the q-th consumed entry `e` carries `e`'s user_data and,
+as result, the direct system call's (`K.sys q`) — unless `e` is linked behind a request that failed: then
+-ECANCELED.  A request fails when it is cancelled or when its result severs the chain (`K.severs`). -/
+theorem owed_result (K : Kern) {k kc c cc : Nat} (p : Params k kc c cc) (flags : Nat) (ops : List KOp)
+    (q : Nat) (e : Ent) (dep : Option Nat)
+    (he : (kreached K flags k kc c cc ops).ring.consumed[q]? = some e)
+    (hd : (kreached K flags k kc c cc ops).deps[q]? = some dep) :
+    expWord K (kreached K flags k kc c cc ops).ring.consumed (kreached K flags k kc c cc ops).deps q =
+      cqeWord (K.ud e.val)
+        (if (dep.any fun m => (outcome K (kreached K flags k kc c cc ops).ring.consumed
+              (kreached K flags k kc c cc ops).deps m).2) = true then ECANCELED else K.sys q e.val) ∧
+    (outcome K (kreached K flags k kc c cc ops).ring.consumed (kreached K flags k kc c cc ops).deps q).2 =
+      ((dep.any fun m => (outcome K (kreached K flags k kc c cc ops).ring.consumed
+              (kreached K flags k kc c cc ops).deps m).2) ||
+        K.severs e.val
+          (if (dep.any fun m => (outcome K (kreached K flags k kc c cc ops).ring.consumed
+              (kreached K flags k kc c cc ops).deps m).2) = true then ECANCELED else K.sys q e.val)) := by
+  have h := (kreached_inv K p flags ops).1
+  generalize kreached K flags k kc c cc ops = s at *
+  have ho := outcome_eq K s.ring.consumed s.deps q dep hd (fun m hm => (h.dep_ok q m (by rw [hd, hm])).1)
+  rw [he] at ho
+  unfold expWord
+  rw [he, ho]
+  exact ⟨rfl, rfl⟩
+
+/-- **one_cqe_per_sqe** — the property in its own terms, for entries without IOSQE_IO_LINK.  ASSUMED: the kernel
+contract (see `cqe_exactly_once`; it is what the real-ring oracle run of checks/c18.py observes).  PROVED about
+the wrapper, for every ring size, index shift, initial counter and interleaving:
+(1) safety — the (user_data, res) pairs the application has reaped are a sub-multiset of
+    {(e.user_data, result of the direct system call for e) | e filled and flushed}: no completion is lost by
+    the wrapper, reaped twice or invented;
+(2) completeness at quiescence — when the kernel has nothing pending and `get_next_cqe` returns `None`, the
+    reaped pairs are exactly that multiset. -/
+theorem one_cqe_per_sqe (K : Kern) {k kc c cc : Nat} (p : Params k kc c cc) (flags : Nat) (ops : List KOp)
+    (hnl : ∀ e ∈ (kreached K flags k kc c cc ops).ring.filled, K.link e.val = false) :
+    (∃ rest, (reapedPairs (kreached K flags k kc c cc ops) ++ rest).Perm
+      (flushedPairs K (kreached K flags k kc c cc ops))) ∧
+    (KQuiet (kreached K flags k kc c cc ops) →
+      (step .fixed (kreached K flags k kc c cc ops).ring .reap).2 = .noCqe →
+      (reapedPairs (kreached K flags k kc c cc ops)).Perm (flushedPairs K (kreached K flags k kc c cc ops))) := by
+  obtain ⟨h, hr⟩ := kreached_inv K p flags ops
+  exact pairs_state h hr hnl
+
+/-- sub-multiset, said with counts: no pair is reaped more often than it is owed -/
+theorem one_cqe_per_sqe_count (K : Kern) {k kc c cc : Nat} (p : Params k kc c cc) (flags : Nat) (ops : List KOp)
+    (hnl : ∀ e ∈ (kreached K flags k kc c cc ops).ring.filled, K.link e.val = false) (x : Nat × Nat) :
+    (reapedPairs (kreached K flags k kc c cc ops)).count x ≤
+      (flushedPairs K (kreached K flags k kc c cc ops)).count x := by
+  obtain ⟨rest, hperm⟩ := (one_cqe_per_sqe K p flags ops hnl).1
+  have := hperm.count_eq x
+  rw [List.count_append] at this
+  omega
+
+/-- **wake_protocol**: `needs_wakeup()` answers exactly whether the kernel raised IORING_SQ_NEED_WAKEUP — also while
+IORING_SQ_CQ_OVERFLOW is up (overflow list non-empty) — so after the application's `wake` step the submission
+thread is awake; and a sleeping thread consumes nothing (a missed wake-up means no completion, ever). -/
+theorem wake_protocol (K : Kern) (cd : Ring.Code) (s : KSt) :
+    (kstep K cd s .wake).2 = .wake s.needWake ∧ (kstep K cd s .wake).1.needWake = false ∧
+    (s.needWake = true → ∀ n, kstep K cd s (.consume n) = (s, .consumed [])) := by
+  refine ⟨?_, ?_, ?_⟩
+  · obtain ⟨ring, nw, pend, ovf, dn, fl, dp, ps⟩ := s
+    cases nw <;> cases ovf <;> simp [kstep, flagsWord, needsWakeup]
+  · obtain ⟨ring, nw, pend, ovf, dn, fl, dp, ps⟩ := s
+    cases nw <;> cases ovf <;> simp [kstep, flagsWord, needsWakeup]
+  · intro hw n
+    simp only [kstep, kConsumeK, hw, if_true]
+
+/-! non-vacuity of the contract theorems: concrete interleavings on the concrete kernel `nopKern` (entry =
+`sqeWord user_data flags len`, the "system call" returns `len`, negative = failure) -/
+
+/-- both rings cross the 32-bit wrap; completions out of submission order (request 1 before 0); an IOSQE_IO_LINK
+chain 2→3 whose head fails (res -1): 3 cannot complete before 2 and is then cancelled (-ECANCELED = 4294967171);
+the completion ring (2 entries) is full: two completions go to the overflow list and are flushed later, in order -/
+example :
+    (krun nopKern .fixed (kinit 0 1 1 4294967295 4294967295)
+      [.get (sqeWord 1 0 7), .get (sqeWord 2 0 8), .flush, .consume 2, .complete 1,
+       .get (sqeWord 3 4 4294967295), .get (sqeWord 4 0 9), .flush, .consume 2,
+       .complete 2, .complete 1, .complete 1, .complete 0, .flushOvf 5, .reap, .flushOvf 5, .reap, .flushOvf 5,
+       .reap, .reap, .reap]).2 =
+    [.app (.slot 1), .app (.slot 0), .app (.flushed 2),
+     .consumed [⟨0, ⟨1, sqeWord 1 0 7⟩, none⟩, ⟨1, ⟨0, sqeWord 2 0 8⟩, none⟩], .completed 1 (cqeWord 2 8) true,
+     .app (.slot 1), .app (.slot 0), .app (.flushed 2),
+     .consumed [⟨2, ⟨1, sqeWord 3 4 4294967295⟩, none⟩, ⟨3, ⟨0, sqeWord 4 0 9⟩, some 2⟩],
+     .notReady, .completed 2 (cqeWord 3 4294967295) true, .completed 3 (cqeWord 4 ECANCELED) false,
+     .completed 0 (cqeWord 1 7) false, .flushedOvf 0, .app (.cqe (cqeWord 2 8)), .flushedOvf 1,
+     .app (.cqe (cqeWord 3 4294967295)), .flushedOvf 1, .app (.cqe (cqeWord 4 ECANCELED)),
+     .app (.cqe (cqeWord 1 7)), .app .noCqe] := by decide
+
+/-- the hypotheses of `cqe_complete_at_quiescence` / `link_chain_order` are met by that run: the kernel is quiet,
+the ring is reaped empty, request 3 is linked behind 2, and the reaped request numbers are 1, 2, 3, 0 -/
+example :
+    let s := kreached nopKern 0 1 1 4294967295 4294967295
+      [.get (sqeWord 1 0 7), .get (sqeWord 2 0 8), .flush, .consume 2, .complete 1,
+       .get (sqeWord 3 4 4294967295), .get (sqeWord 4 0 9), .flush, .consume 2,
+       .complete 2, .complete 1, .complete 1, .complete 0, .flushOvf 5, .reap, .flushOvf 5, .reap, .flushOvf 5,
+       .reap, .reap, .reap]
+    (s.ring.sqKHead = s.ring.sqKTail ∧ s.pend = [] ∧ s.ovf = []) ∧ (step .fixed s.ring .reap).2 = .noCqe ∧
+    s.deps = [none, none, none, some 2] ∧ reapedSeq s = [1, 2, 3, 0] ∧
+    reapedPairs s = [(2, 8), (3, 4294967295), (4, 4294967171), (1, 7)] := by decide
+
+/-- an SQPOLL ring: the idle kernel thread consumes nothing until the application's wake step, also with
+IORING_SQ_CQ_OVERFLOW up (flags word 3) -/
+example :
+    (krun nopKern .fixed (kinit 2 0 0 0 0)
+      [.get (sqeWord 1 0 7), .flush, .consume 1, .complete 0, .get (sqeWord 2 0 8), .flush, .consume 1, .complete 0,
+       .idle, .get (sqeWord 3 0 9), .flush, .consume 1, .wake, .consume 1]).2 =
+    [.app (.slot 0), .app (.flushed 1), .consumed [⟨0, ⟨0, sqeWord 1 0 7⟩, none⟩], .completed 0 (cqeWord 1 7) true,
+     .app (.slot 0), .app (.flushed 1), .consumed [⟨1, ⟨0, sqeWord 2 0 8⟩, none⟩], .completed 1 (cqeWord 2 8) false,
+     .idle, .app (.slot 0), .app (.flushed 1), .consumed [], .wake true,
+     .consumed [⟨2, ⟨0, sqeWord 3 0 9⟩, none⟩]] := by decide
+
+/-- `Kern` is inhabited by a kernel without links (hypothesis of `one_cqe_per_sqe`) -/
+example : ∀ e ∈ (kreached nopKern 0 1 1 0 0 [.get (sqeWord 1 0 7), .get (sqeWord 2 2 8)]).ring.filled,
+    nopKern.link e.val = false := by decide
 
 end TinyVerif.C18
